@@ -4,18 +4,23 @@
 # Exit: 0 held (KNOWN-FINDING lines allowed), 1 violation (VIOLATION line printed), 2 infrastructure trouble.
 set -u
 PROP="$1"; MODE="${2:-quick}"
-VERIF=/verif
+VERIF="$(cd "$(dirname "${BASH_SOURCE[0]}")" && pwd)"   # /verif, or a snapshot of it (vp run)
 export GOFLAGS=-mod=mod GOPROXY=off GOSUMDB=off GOTOOLCHAIN=local CGO_ENABLED=1
 export PATH=/opt/veriftools/go1.26.8/bin:$PATH
 GO=go1.26.8; command -v $GO >/dev/null || GO=/opt/veriftools/go1.26.8/bin/go
 SCR=/var/tmp/verif-$PROP-$$
-trap 'rm -rf "$SCR"; rm -rf /dev/shm/pegsim-'$PROP'-* 2>/dev/null' EXIT
-mkdir -p "$SCR" || exit 2
+# simulated database directories: a tmpfs directory owned by this invocation only
+# (several checks, also of the same property, may run at the same time)
+SHM=/dev/shm/verif-$PROP-$$
+mkdir -p "$SHM" 2>/dev/null || SHM="$SCR/shm"
+trap 'rm -rf "$SCR" "$SHM"' EXIT
+mkdir -p "$SCR" "$SHM" || exit 2
+export PEGSIM_SHM="$SHM"
 T0=$(date +%s)
 
 # 1. scratch copy of the repository's working tree, seams inserted mechanically
 rsync -a --exclude .git /repo/ "$SCR/repo/" || exit 2
-if [ ! -x "$VERIF/bin/pegsim-instrument" ]; then
+if [ ! -x "$VERIF/bin/pegsim-instrument" ] || [ "$VERIF/instrument/main.go" -nt "$VERIF/bin/pegsim-instrument" ]; then
   mkdir -p "$VERIF/bin"
   ( cd $VERIF/instrument && $GO build -o "$VERIF/bin/pegsim-instrument" . ) > "$SCR/instrument-build.log" 2>&1 || { echo "cannot build pegsim-instrument:"; tail -20 "$SCR/instrument-build.log"; exit 2; }
 fi
